@@ -100,12 +100,18 @@ def _gen_case(rng: random.Random, k: int) -> Dict[str, Any]:
         for i in range(n_v):
             cell = rng.choice(cells + list(st_cell.values()) + [b["_cell"] for b in base_rows])
             lat, lon = latlon(cell)
-            veh_rows.append({"vehicle_id": f"v{i}", "lat": lat, "lon": lon, "mechatronics_id": rng.choice(mech_ids),
-                             "initial_soc": repr(rng.choice([0.05, 0.3, 0.99, 1.0]))})
+            row = {"vehicle_id": f"v{i}", "lat": lat, "lon": lon, "mechatronics_id": rng.choice(mech_ids),
+                   "initial_soc": repr(rng.choice([0.05, 0.3, 0.99, 1.0])), "schedule_id": "", "home_base_id": ""}
+            if rng.random() < 0.45:
+                # a human driver with a home base (several may share one)
+                row["schedule_id"] = "sched"
+                row["home_base_id"] = rng.choice([b["base_id"] for b in base_rows] + ["b_missing"] if rng.random() < 0.9 else ["b_missing"])
+            veh_rows.append(row)
+        human_cols = any(r["schedule_id"] for r in veh_rows)
         # ---- fleets
         fleets_file = None
+        fl: Dict[str, Any] = {}
         if rng.random() < 0.4:
-            fl = {}
             for fid in ["fA", "fB"]:
                 fl[fid] = {"vehicles": [v["vehicle_id"] for v in veh_rows if rng.random() < 0.5],
                            "stations": [s for s in st_ids if rng.random() < 0.5],
@@ -117,15 +123,18 @@ def _gen_case(rng: random.Random, k: int) -> Dict[str, Any]:
         files = {}
         for name, cols, data in (("stations", ["station_id", "lat", "lon", "charger_count", "charger_id", "on_shift_access"], rows),
                                  ("bases", ["base_id", "lat", "lon", "station_id", "stall_count"], base_rows),
-                                 ("vehicles", ["vehicle_id", "lat", "lon", "mechatronics_id", "initial_soc"], veh_rows)):
+                                 ("vehicles", ["vehicle_id", "lat", "lon", "mechatronics_id", "initial_soc"] + (["schedule_id", "home_base_id"] if human_cols else []), veh_rows)):
             files[name] = os.path.join(tmp, name + ".csv")
             with open(files[name], "w", newline="") as fh:
                 wr = csv.DictWriter(fh, fieldnames=cols, extrasaction="ignore")
                 wr.writeheader()
                 wr.writerows(data)
+        sched_file = os.path.join(tmp, "schedules.csv")
+        with open(sched_file, "w") as fh:
+            fh.write("schedule_id,start_time,end_time\nsched,08:00:00,17:00:00\n")
         cfg = cfg._replace(
             input_config=cfg.input_config._replace(vehicles_file=files["vehicles"], stations_file=files["stations"], bases_file=files["bases"],
-                                                   fleets_file=fleets_file),
+                                                   fleets_file=fleets_file, schedules_file=sched_file),
             network=cfg.network._replace(network_type="euclidean"),
             sim=cfg.sim._replace(sim_h3_search_resolution=search_res),
             global_config=cfg.global_config._replace(log_run=False, log_states=False, log_events=False, log_stats=False, log_instructions=False,
@@ -138,14 +147,28 @@ def _gen_case(rng: random.Random, k: int) -> Dict[str, Any]:
         n.fix("veh", [v["vehicle_id"] for v in veh_rows])
         raised = None
         sim_enc = None
+        member_msgs: List[str] = []
         try:
             sim, env = initialize(cfg)
+            # private home-base memberships are interned as they come
             sim_enc = enc_sim(n, sim)
+            # memberships: a vehicle holds the fleets the fleets file lists it in, plus the private
+            # membership of its home base when that base exists - nothing is lost, nothing else is added
+            base_ids_ = {b["base_id"] for b in base_rows}
+            for r in veh_rows:
+                vid = r["vehicle_id"]
+                want = {f for f, d in fl.items() if vid in d["vehicles"]}
+                if r["home_base_id"] and r["home_base_id"] in base_ids_:
+                    want.add(f"{vid}_private_{r['home_base_id']}")
+                got = set(sim.vehicles[vid].membership.memberships)
+                if got != want:
+                    for pfx in ("C10", "C12"):
+                        member_msgs.append(f"{pfx}/layout-membership| vehicle {vid} holds memberships {sorted(got)} after loading; the fleets file and its home base give {sorted(want)}")
         except Exception as e:
             raised = f"{type(e).__name__}: {e}"[:200]
         link = lambda c: n.get("link", f"{c}-{c}")
         rec = {
-            "op": "layout", "id": f"l{k}", "sim": sim_enc, "raised": raised,
+            "op": "layout", "id": f"l{k}", "sim": sim_enc, "raised": raised, "memberMsgs": member_msgs,
             "rows": [{"sid": n.get("stn", r["station_id"]), "pos": {"link": link(st_cell[r["station_id"]]), "cell": n.cell(st_cell[r["station_id"]])},
                       "chg": n.get("chg", r["charger_id"]), "count": r["_count"], "onShift": r["on_shift_access"].lower() == "true"} for r in rows],
             "bases": [{"bid": n.get("base", b["base_id"]), "pos": {"link": link(b["_cell"]), "cell": n.cell(b["_cell"])}, "stalls": int(b["stall_count"]),
@@ -173,6 +196,8 @@ def worker(args) -> Dict[str, Any]:
     for r, o in zip(recs, outs):
         m = r["meta"]
         shapes.add((min(m["stations"], 3), m["repeated_plug"], m["fleets"], m["unknown_plug"], r["raised"] is not None, min(m["bases"], 3)))
+        if r.get("memberMsgs"):
+            findings.append({"id": r["id"], "kind": "mon", "record": r, "text": r["memberMsgs"][:6]})
         if r["raised"] and not m["unknown_plug"]:
             findings.append({"id": r["id"], "kind": "mon", "record": r, "text": [f"C02/run-stopped| loading the layout raised: {r['raised']}"]})
         if "error" in o:
